@@ -4,11 +4,12 @@ use vmon::report::{Args, Report};
 use vmon::ugen::Pools;
 
 fn main() {
-    if std::env::var_os("VMON_NOOP").is_some() {
-        // used by `./check build miri` to compile the binary under the interpreter
+    let args = Args::parse();
+    if args.get("noop").is_some() {
+        // used by `./check build miri` to compile the binary under the interpreter (an argument, not an
+        // environment variable: cargo-miri replays the build-time environment at run time)
         return;
     }
-    let args = Args::parse();
     let suite = args.str("suite", "match");
     let out = args.str("out", "-");
     let seed = args.u64("seed", 1);
@@ -16,7 +17,9 @@ fn main() {
     let cases = args.u64("cases", 100_000);
     let time_limit = args.f64("time-limit", 60.0);
     let replay = args.get("replay-case").and_then(|s| s.parse().ok());
-    install_quiet_panic_hook();
+    if args.u64("quiet-panics", 1) != 0 {
+        install_quiet_panic_hook();
+    }
     let mut rep = Report::new(&suite);
     let lazy_pools = std::cell::OnceCell::new();
     let pools_fn = || lazy_pools.get_or_init(Pools::new);
